@@ -96,6 +96,31 @@ func init() {
 								}
 							}
 						case *ssa.Return:
+							// a step that hands the entry back (get-or-create) leaves the counting to its callers: each of them
+							// counts after the call
+							handsBack := false
+							for _, rv := range x.Results {
+								if _, isEntry := counterField(rv.Type()); isEntry {
+									handsBack = true
+								}
+							}
+							if handsBack && depth < 2 {
+								sites := c.P.Callers(f)
+								allCount := len(sites) > 0
+								for _, site := range sites {
+									si, isIn := site.(ssa.Instruction)
+									if !isIn || site.Parent() == nil || site.Common().StaticCallee() != f {
+										allCount = false
+										continue
+									}
+									if leaks(site.Parent(), si.Block(), an.InstrIndex(si)+1, depth+1) != token.NoPos {
+										allCount = false
+									}
+								}
+								if allCount {
+									return
+								}
+							}
 							bad = x.Pos()
 							if bad == token.NoPos {
 								bad = f.Pos()
